@@ -9,10 +9,6 @@ Open Scope Z_scope.
 (* ------------------------------------------------------------------ *)
 (* The property as a Prop                                               *)
 
-(* byte chunks a response hands out *)
-Definition chunks (r : resp) : list bytes :=
-  match r_parts r with Some ps => map p_data ps | None => [r_body r] end.
-
 Definition shape_prop (lower : bytes -> bytes) (content ct : bytes) (st0 : Z) (hdr : bytes) (r : resp) : Prop :=
   let size := blen content in
   (* no Range header: the full content, matching Content-Length, status untouched *)
